@@ -55,9 +55,9 @@ def check(ctx):
     facts = ctx.facts()
     for adt, (solver, karg) in sorted(CACHES.items()):
         get = facts.body(adt + "::get")
-        ks = [i for i in range(1, get.nargs + 1) if get.local_name(i) == "k"]
+        ks = [i for i in range(1, get.nargs + 1) if get.local_ty(i) == "usize"]
         if len(ks) != 1:
-            raise AnchorMissing("%s::get has no parameter k" % short(adt))
+            raise AnchorMissing("%s::get: expected exactly one usize parameter (the requested k)" % short(adt))
         K = ks[0]
         idx = []
         for b in facts.family(get):
